@@ -84,6 +84,11 @@ def run(ctx: core.Ctx) -> int:
         n = len(c["rows"])
         c["cuts"] = sorted({rng.randint(1, n) for _ in range(2)} | {rng.randint(3, 10)})
         cases.append(c)
+    for k in range(ctx.n(18, 180)):
+        c = E.gen_cross_base_case(rng, ctx, k)
+        n = len(c["rows"])
+        c["cuts"] = sorted({rng.randint(1, n) for _ in range(2)} | {rng.randint(1, 4)})
+        cases.append(c)
     for i, c in enumerate(cases):
         ctx.count("eval_falsifier")
         falsify(ctx, c)
